@@ -60,17 +60,18 @@ Tactic Notation "dbind1" hyp(H) "as" ident(x) ident(E) :=
 
 Section Dead.
   Variable kb : kbase.
+  Variable bf : nat.
 
   (* ---- a request that finds no answer leaves the node dead ---- *)
   Definition none_dead_next (fuel : nat) : Prop :=
-    forall nd w nd' c w', next kb fuel nd w = Ok (nd', None, c, w') -> dead nd'.
+    forall nd w nd' c w', next kb bf fuel nd w = Ok (nd', None, c, w') -> dead nd'.
   Definition none_dead_and (fuel : nat) : Prop :=
     forall ss nobt more head tail optail acc w nd' c w',
-      and_loop kb fuel ss nobt more head tail optail acc w = Ok (nd', None, c, w') ->
+      and_loop kb bf fuel ss nobt more head tail optail acc w = Ok (nd', None, c, w') ->
       match tail with Some t => dead t | None => True end -> dead nd'.
   Definition none_dead_call (fuel : nat) : Prop :=
     forall t ss nobt child idx n w nd' c w',
-      call_loop kb fuel t ss nobt child idx n w = Ok (nd', None, c, w') ->
+      call_loop kb bf fuel t ss nobt child idx n w = Ok (nd', None, c, w') ->
       match child with Some c0 => dead c0 | None => True end -> dead nd'.
 
   Lemma none_dead_all : forall fuel, none_dead_next fuel /\ none_dead_and fuel /\ none_dead_call fuel.
@@ -147,18 +148,18 @@ Section Dead.
 
   (* ---- a dead node answers None, silently, and stays dead ---- *)
   Definition dead_stays_next (fuel : nat) : Prop :=
-    forall nd w nd' r c w', dead nd -> next kb fuel nd w = Ok (nd', r, c, w') ->
+    forall nd w nd' r c w', dead nd -> next kb bf fuel nd w = Ok (nd', r, c, w') ->
       r = None /\ c = false /\ w' = w /\ dead nd'.
   Definition dead_stays_and (fuel : nat) : Prop :=
     forall ss nobt more head tail optail acc w nd' r c w',
       match head with Some h => dead h | None => True end ->
       match tail with Some t => dead t | None => True end ->
-      and_loop kb fuel ss nobt more head tail optail acc w = Ok (nd', r, c, w') ->
+      and_loop kb bf fuel ss nobt more head tail optail acc w = Ok (nd', r, c, w') ->
       r = None /\ c = acc /\ w' = w /\ dead nd'.
   Definition dead_stays_call (fuel : nat) : Prop :=
     forall t ss nobt child idx n w nd' r c w',
       (nobt = true \/ n <= idx) -> match child with Some c0 => dead c0 | None => True end ->
-      call_loop kb fuel t ss nobt child idx n w = Ok (nd', r, c, w') ->
+      call_loop kb bf fuel t ss nobt child idx n w = Ok (nd', r, c, w') ->
       r = None /\ c = false /\ w' = w /\ dead nd'.
 
   Lemma dead_stays_all : forall fuel, dead_stays_next fuel /\ dead_stays_and fuel /\ dead_stays_call fuel.
@@ -206,40 +207,40 @@ Section Dead.
   Qed.
 End Dead.
 
-Theorem none_then_dead kb fuel nd w nd' c w' :
-  next kb fuel nd w = Ok (nd', None, c, w') -> dead nd'.
-Proof. apply (proj1 (none_dead_all kb fuel)). Qed.
+Theorem none_then_dead kb bf fuel nd w nd' c w' :
+  next kb bf fuel nd w = Ok (nd', None, c, w') -> dead nd'.
+Proof. apply (proj1 (none_dead_all kb bf fuel)). Qed.
 
-Theorem dead_stays kb fuel nd w nd' r c w' :
-  dead nd -> next kb fuel nd w = Ok (nd', r, c, w') -> r = None /\ c = false /\ w' = w /\ dead nd'.
-Proof. apply (proj1 (dead_stays_all kb fuel)). Qed.
+Theorem dead_stays kb bf fuel nd w nd' r c w' :
+  dead nd -> next kb bf fuel nd w = Ok (nd', r, c, w') -> r = None /\ c = false /\ w' = w /\ dead nd'.
+Proof. apply (proj1 (dead_stays_all kb bf fuel)). Qed.
 
 (* any number of further requests *)
-Fixpoint ask_again (kb : kbase) (fuel : nat) (m : nat) (nd : node) (w : world)
+Fixpoint ask_again (kb : kbase) (bf fuel : nat) (m : nat) (nd : node) (w : world)
   : res (list (option subst) * node * world) :=
   match m with
   | O => Ok ([], nd, w)
   | S m' =>
-      do x <- next kb fuel nd w;
+      do x <- next kb bf fuel nd w;
       let '(nd', r, _, w') := x in
-      do y <- ask_again kb fuel m' nd' w';
+      do y <- ask_again kb bf fuel m' nd' w';
       let '(rs, nd'', w'') := y in
       Ok (r :: rs, nd'', w'')
   end.
 
-Theorem exhausted_stays_exhausted kb fuel nd w nd' c w' :
-  next kb fuel nd w = Ok (nd', None, c, w') ->
+Theorem exhausted_stays_exhausted kb bf fuel nd w nd' c w' :
+  next kb bf fuel nd w = Ok (nd', None, c, w') ->
   forall m fuel2 w2 rs nd2 w3,
-    ask_again kb fuel2 m nd' w2 = Ok (rs, nd2, w3) ->
+    ask_again kb bf fuel2 m nd' w2 = Ok (rs, nd2, w3) ->
     Forall (fun r => r = None) rs /\ w3 = w2.
 Proof.
   intro H. apply none_then_dead in H. revert H.
   generalize nd'. clear. intros nd Hd m. revert nd Hd.
   induction m as [|m IH]; intros nd Hd fuel2 w2 rs nd2 w3 Ha; simpl in Ha.
   - inversion Ha; subst. split; [constructor|reflexivity].
-  - destruct (next kb fuel2 nd w2) as [[[[n1 r1] c1] w1]| |] eqn:E; simpl in Ha; try discriminate.
-    destruct (dead_stays _ _ _ _ _ _ _ _ Hd E) as (-> & -> & -> & Hd1).
-    destruct (ask_again kb fuel2 m n1 w2) as [[[rs' nd'] w']| |] eqn:E2; simpl in Ha; try discriminate.
+  - destruct (next kb bf fuel2 nd w2) as [[[[n1 r1] c1] w1]| |] eqn:E; simpl in Ha; try discriminate.
+    destruct (dead_stays _ _ _ _ _ _ _ _ _ Hd E) as (-> & -> & -> & Hd1).
+    destruct (ask_again kb bf fuel2 m n1 w2) as [[[rs' nd'] w']| |] eqn:E2; simpl in Ha; try discriminate.
     inversion Ha; subst. destruct (IH _ Hd1 _ _ _ _ _ E2) as [Hf ->]. split; [constructor; auto|reflexivity].
 Qed.
 
@@ -250,8 +251,8 @@ Theorem solve_after_exhaustion kb fuel nd w nd' txt w' :
   (txt = no_more \/ txt = timeout_msg) /\ out w' = out w /\ dead nd'.
 Proof.
   intros Hd H. unfold solve in H.
-  destruct (next kb fuel nd (w_set_flag w false)) as [[[[n1 r1] c1] w1]| |] eqn:E; simpl in H; try discriminate.
-  destruct (dead_stays _ _ _ _ _ _ _ _ Hd E) as (-> & -> & -> & Hd1).
+  destruct (next kb fuel fuel nd (w_set_flag w false)) as [[[[n1 r1] c1] w1]| |] eqn:E; simpl in H; try discriminate.
+  destruct (dead_stays _ _ _ _ _ _ _ _ _ Hd E) as (-> & -> & -> & Hd1).
   unfold query_stopped in H. simpl in H.
   destruct (stop_after w) as [[|p]|]; inversion H; subst; simpl; auto.
 Qed.
